@@ -39,6 +39,12 @@ Example C08_cleanup_nonvacuous :
 Proof. exact spell_equiv_example. Qed.
 Print Assumptions C08_cleanup_nonvacuous.
 
+(* the cleaned query never contains LF (cleanup_query splits at LF): this is what licenses the model's reading of
+   '$' as "end of text" in the regexes applied after cleanup *)
+Theorem C08_cleanup_no_lf : forall (fl : lang) (q : str), nolf (cleanup_query fl q).
+Proof. exact cleanup_no_lf. Qed.
+Print Assumptions C08_cleanup_no_lf.
+
 (* C08_literals_opaque (Python flavour). [segs] alternates code without quote characters with literals
    Q body Q, Q one of DQ, SQ, DQ DQ DQ, SQ SQ SQ (double / single quote), whose body is a sequence of plain characters (not the quote character, not a
    backslash, not LF) and backslash pairs (backslash + any character but LF; inside a triple-quoted literal not the
